@@ -22,7 +22,7 @@ ASSUMPTIONS = [
     "observable state = variable count and list, index maps on a tuple box, objective and constraint data, QUBO (both modes), stored feasible solution, routes decoded from it",
     "the path-based route sampler is re-seeded identically for both twins (its randomness is C17's subject)",
 ]
-PARTIAL = ["the path-based object keeps no caches and is covered by the twin-run oracle only"]
+PARTIAL = []
 TRUSTED = ["C14 sequence-based reset-site theorem assumes unique node names (guaranteed by add_node; refuted in Lean without it)"]
 BUDGET_S = {"quick": 150, "thorough": 1500}
 QUERIES = ["n", "idx", "tup", "obj", "con", "qubo_o", "qubo_f", "routes"]
@@ -352,11 +352,181 @@ def _dense(triples, rows, cols):
     return M
 
 
+def correspond_path_flags(res, drv, case):
+    """the operation-level model of the PATH-based object (VrpModel/PathFlags.lean: no caches; queries compute from the pool and the
+    graph; the heuristic's partial effects are kept when it raises) against the real object, call by call, with the route sampler
+    scripted identically on both sides"""
+    import random
+    from vrpqubo.routing_problem.formulations import path_based_rp as pbm
+    rnd = random.Random(case.get("seed", 0) + 17)
+    o, _ = FU.build_form(case, with_heur=False)
+    g0 = VU.graph_of(o)
+    if not g0["nodes"]:
+        return
+    inst = FU.inst_tokens(o, "path")
+    choices = [rnd.randrange(6) for _ in range(12)]
+    ops, impl = [], []
+
+    def route_tok(r):
+        return f"{len(r)} " + " ".join(f"i:{x}" if isinstance(x, int) else f"n:{x}" for x in r)
+    hist = list(case["hist"])
+    # candidate routes are part of the path object's alphabet: a few checks / offers are woven into the history
+    N = len(g0["nodes"])
+    for _ in range(rnd.randint(0, 2)):
+        k = rnd.sample(range(1, N), min(N - 1, rnd.randint(1, 2))) if N > 1 else []
+        hist.insert(rnd.randint(0, len(hist)), [rnd.choice(["chk", "route"]), [0] + k + [0]])
+    for op in hist:
+        kind = op[0]
+        try:
+            if kind == "n":
+                ops.append("n")
+                out = ("n", int(o.get_num_variables()))
+            elif kind == "obj":
+                ops.append("obj")
+                c, Q = o.get_objective_data()
+                out = ("obj", [F(x) for x in np.asarray(c).ravel()])
+            elif kind == "con":
+                ops.append("con")
+                A, b, R, r_ = o.get_constraint_data()
+                Ad = A.toarray() if hasattr(A, "toarray") else np.asarray(A)
+                out = ("con", [[F(x) for x in row] for row in Ad.reshape(len(b), -1)] if len(b) else [], [F(x) for x in np.asarray(b).ravel()], tuple(int(t) for t in Ad.shape))
+            elif kind in ("qubo_o", "qubo_f"):
+                feas = kind == "qubo_f"
+                ops.append(f"qubo {1 if feas else 0} none")
+                Q, k, shape = VU.qubo_dense(o, feas, None)
+                out = ("qubo", int(shape[0]), k, sum((x for row in Q for x in row), Fraction(0)))
+            elif kind == "routes":
+                sol = o.feasible_solution
+                nn = len(o.route_costs)
+                x = [int(round(float(v))) for v in np.asarray(sol).ravel()] if sol is not None and rnd.random() < 0.7 else [rnd.choice([0, 1]) for _ in range(nn)]
+                ops.append(f"dec {len(x)} " + " ".join(str(v) for v in x))
+                out = ("routes", [[str(t) for t in r] for r in o.get_routes(np.array(x, dtype=float))])
+            elif kind == "chk":
+                ops.append("chk " + route_tok(op[1]))
+                f_, c_, _v = o.check_route(list(op[1]))
+                out = ("chk", bool(f_), F(c_))
+            elif kind == "route":
+                ops.append("route " + route_tok(op[1]))
+                f_, a_ = o.add_route(list(op[1]))
+                out = ("route", bool(f_), bool(a_))
+            elif kind == "heur":
+                ops.append(f"heur {op[1]}")
+                counter = [0]
+
+                def scripted(key_val, explore):
+                    assert key_val, "Dictionary to sample is empty"
+                    keys = list(key_val.keys())
+                    k_ = keys[choices[counter[0] % len(choices)] % len(keys)]
+                    counter[0] += 1
+                    return k_, min(key_val, key=key_val.get)
+                restore = pbm.get_sampled_key
+                pbm.get_sampled_key = scripted
+                try:
+                    o.make_feasible(VU.val(op[1]))
+                finally:
+                    pbm.get_sampled_key = restore
+                out = ("heur", "ok")
+            elif kind == "addarc":
+                ops.append(f"addarc {op[1]} {op[2]} {op[3]} {op[4]}")
+                r = o.add_arc(op[1], op[2], VU.val(op[3]), VU.val(op[4]))
+                out = ("mut", f"done {1 if r else 0}")
+            elif kind == "addnode":
+                ops.append(f"addnode {op[1]} {op[2]} {op[3]} {op[4]}")
+                o.add_node(op[1], VU.val(op[2]), (VU.val(op[3]), VU.val(op[4])))
+                out = ("mut", "done")
+            elif kind == "setdepot":
+                ops.append(f"setdepot {op[1]}")
+                o.set_depot(op[1])
+                out = ("mut", "done")
+            else:
+                continue
+        except Exception as e:  # noqa
+            out = (kind, "raised", core.err_kind(e))
+        impl.append(out)
+    if not ops:
+        return
+    rep = drv.ask(f"flags.path {inst} {len(choices)} {' '.join(map(str, choices))} {len(ops)} {' '.join(ops)}")
+    if not rep.startswith("ok "):
+        res.disagree("flags.path command", "ok", rep[:120])
+        return
+    parts = [p_.strip() for p_ in rep[3:].split(" | ")]
+    for step, (dig, out) in enumerate(zip(parts[:len(ops)], impl)):
+        tk = dig.split()
+        what = f"path object machine, call #{step} `{ops[step][:40]}`"
+        m_raised = "raised" in tk[:2] or any(t.startswith("err:") for t in tk[:3])
+        if ops[step].startswith("dec ") and (out[1:2] == ("raised",) or m_raised):
+            continue          # decoding a vector that selects nothing storable: raise or not is incidental
+        if (out[1:2] == ("raised",)) != m_raised:
+            res.disagree(what + ": raised / returned", out[1:], dig[:80])
+            return
+        if m_raised:
+            continue
+        if out[0] == "mut" and " ".join(tk) != out[1]:
+            res.disagree(what, out[1], " ".join(tk))
+        elif out[0] == "n" and int(tk[1]) != out[1]:
+            res.disagree(what, out[1], tk[1])
+        elif out[0] == "obj":
+            t0 = MU.Toks(dig[3:].split(" ; ")[0].split())
+            mc = t0.lst(lambda: Fraction(t0.tok()))
+            if mc != out[1]:
+                res.disagree(what, out[1], mc)
+        elif out[0] == "con":
+            secs = [x.split() for x in dig[3:].split(" ; ")]
+            t0 = MU.Toks(secs[0])
+            tri = t0.lst(lambda: (t0.nat(), t0.nat(), Fraction(t0.tok())))
+            t1 = MU.Toks(secs[1])
+            mb = t1.lst(lambda: Fraction(t1.tok()))
+            rows, cols = int(secs[2][0]), int(secs[2][1])
+            mA = _dense(tri, rows, cols)
+            if mb != out[2] or (mA or []) != (out[1] or []) or ((rows, cols) != out[3] and len(out[2]) > 0):
+                res.disagree(what, (out[2], out[3]), (mb, (rows, cols)))
+        elif out[0] == "qubo":
+            if tk[1] != "ok" or int(tk[2]) != out[1] or Fraction(tk[4]) != out[2] or Fraction(tk[5]) != out[3]:
+                res.disagree(what, out[1:], tk[1:])
+        elif out[0] == "routes":
+            t0 = MU.Toks(tk[1:])
+            mr = t0.lst(lambda: t0.lst(t0.tok))
+            if mr != out[1]:
+                res.disagree(what, out[1], mr)
+        elif out[0] == "chk":
+            f_, c_ = tk[1].split(":")[1] == "1", Fraction(tk[1].split(":")[2])
+            if f_ != out[1] or (out[1] and c_ != out[2]):
+                res.disagree(what, out[1:], tk[1])
+        elif out[0] == "route":
+            pr = tk[1].split(":")
+            if (pr[1] == "1", pr[2] == "1") != (out[1], out[2]):
+                res.disagree(what, out[1:], tk[1])
+        if res.disagreements:
+            return
+    k = next(i for i, p_ in enumerate(parts) if p_.startswith("final "))
+    mg = MU.parse_graph(MU.Toks(parts[k][6:].split()))
+    g = VU.graph_of(o)
+    if (g["nodes"], sorted(g["arcs"])) != (mg["nodes"], sorted(mg["arcs"])):
+        res.disagree("path object machine: graph after the history", [a for a in g["arcs"] if a not in mg["arcs"]][:3], [a for a in mg["arcs"] if a not in g["arcs"]][:3])
+    tr = MU.Toks(parts[k + 1].split())
+    mroutes = tr.lst(lambda: tr.lst(tr.nat))
+    if [[int(i) for i in r] for r in o.routes] != mroutes:
+        res.disagree("path object machine: route pool after the history", [[int(i) for i in r] for r in o.routes][:4], mroutes[:4])
+    mcosts = [Fraction(t) for t in parts[k + 2].split()[1:]]
+    if [F(c) for c in o.route_costs] != mcosts:
+        res.disagree("path object machine: route costs after the history", [fs(F(c)) for c in o.route_costs][:6], [fs(c) for c in mcosts][:6])
+    msol = parts[-1].split()
+    isol = None if o.feasible_solution is None else [F(v) for v in np.asarray(o.feasible_solution).ravel()]
+    msolv = None if msol == ["none"] else [Fraction(t) for t in msol[1:]]
+    if isol != msolv:
+        res.disagree("path object machine: stored solution after the history", isol, msolv)
+    res.features.append("path-machine:compared")
+    if any(x[1:2] == ("raised",) for x in impl):
+        res.features.append("path-machine:some-call-raised")
+
+
 def correspond_flags(res, drv, case):
     """the flag-level model (VrpModel/CacheFlags.lean: one function per Python method, reset sites at the code's program points,
     partial state after a raise) against the real object, operation by operation: reply, the flags after every call, and at the end
     graph, vehicles and stored solution.  The history continues after a raising heuristic."""
     form = case["form"]
+    if form == "path":
+        return correspond_path_flags(res, drv, case)
     if form not in ("arc", "seq"):
         return
     if case.get("mutators") and not FLAG_MODEL_HAS_MUTATORS:
